@@ -8,6 +8,10 @@ use vstd::std_specs::cmp::OrdSpec;
 //@include prelude/deps.rs
 //@include prelude/btc.rs
 //@map /Secp256k1<secp256k1::All>/ => VxSecp
+//@map /Secp256k1::new\(\)/ => VxSecp::new()
+//@map /\bAtomicUsize\b/ => VxAtomic
+//@map /\bAtomicU32\b/ => VxAtomic
+//@map /derive::key_derive\(/ => vx_key_derive(
 //@map /"per-peer seed"\.as_bytes\(\)/ => vx_info_per_peer_seed()
 //@map /hkdf_info\.as_bytes\(\)/ => vx_info_c_lightning()
 verus! {
@@ -16,6 +20,33 @@ verus! {
 #[verifier::external_body] pub struct Xpriv { _p: u8 }
 #[verifier::external_body] pub struct Network { _p: u8 }
 impl Clone for Network { #[verifier::external_body] fn clone(&self) -> (r: Self) ensures r == *self { unimplemented!() } }
+impl Copy for Network {}
+
+#[verifier::external_body] pub struct ExpandedKey { _p: u8 }
+#[verifier::external_body] pub struct Sha256State { _p: u8 }
+#[verifier::external_body] pub struct VxAtomic { _p: u8 }
+#[verifier::external_body] pub struct Ordering { _p: u8 }
+impl Ordering { #[verifier::external_body] pub fn vx_acq_rel() -> Ordering { unimplemented!() } }
+impl VxAtomic {
+    // AtomicU32 / AtomicUsize::fetch_add: any value (the counter is not part of what the keys may depend on)
+    #[verifier::external_body] pub fn fetch_add(&self, v: u32, o: Ordering) -> u32 { unimplemented!() }
+}
+impl VxSecp { #[verifier::external_body] pub fn new() -> VxSecp { unimplemented!() } }
+impl Clone for Xpriv { #[verifier::external_body] fn clone(&self) -> (r: Self) ensures r == *self { unimplemented!() } }
+
+// LDK InMemorySigner: the six secrets it is built from are "the channel's keys" (basepoints, funding key and the
+// per-commitment secrets / points are LDK's functions of these six values; lightning crate, TCB)
+#[verifier::external_body] pub struct InMemorySigner { _p: u8 }
+pub uninterp spec fn ldk_secrets(k: InMemorySigner) -> (SecretKey, SecretKey, SecretKey, SecretKey, SecretKey, Seq<u8>);
+impl InMemorySigner {
+    // (funding, revocation base, payment, delayed payment base, htlc base, commitment seed, value, keys id, entropy)
+    #[verifier::external_body]
+    pub fn new(secp: &VxSecp, funding_key: SecretKey, revocation_base_key: SecretKey, payment_key: SecretKey,
+        delayed_payment_base_key: SecretKey, htlc_base_key: SecretKey, commitment_seed: [u8; 32], channel_value_satoshis: u64,
+        channel_keys_id: [u8; 32], rand_bytes_unique_start: [u8; 32]) -> (r: InMemorySigner)
+        ensures ldk_secrets(r) == (funding_key, revocation_base_key, payment_key, delayed_payment_base_key, htlc_base_key, commitment_seed@)
+    { unimplemented!() }
+}
 
 // HKDF-SHA256 (util/crypto_utils.rs over bitcoin_hashes): deterministic, uninterpreted
 pub uninterp spec fn hkdf32(secret: Seq<u8>, info: Seq<u8>, salt: Seq<u8>) -> [u8; 32];
@@ -52,6 +83,8 @@ impl ChannelId {
 
 //@type vls-core/src/signer/derive.rs :: NativeKeyDerive derive=Clone
 //@type vls-core/src/signer/derive.rs :: LdkKeyDerive
+//@type vls-core/src/signer/derive.rs :: KeyDerivationStyle derive=Clone,Copy
+//@type vls-core/src/signer/my_keys_manager.rs :: MyKeysManager
 
 // ------------------------------------------------------------------ spec side (C18)
 // the keys id of a channel depends on the node's channel seed base and the channel id, nothing else
@@ -93,6 +126,68 @@ impl LdkKeyDerive {
     ensures ldk_keys_id_spec(*channel_seed_base, channel_id, r),                                  //[C18.ldk.keys-id-function-of-seed-and-id]
 //@proof before /^\s*res\s*$/
         proof { }
+//@end
+}
+
+
+// ------------------------------------------------------------------ MyKeysManager (C18)
+// derive::key_derive(style, network): Box<dyn KeyDerive> (R6).  The carrier remembers the style; its two methods carry
+// the contracts proved above on the implementations it dispatches to (Native: default keys_id + NativeKeyDerive::
+// channel_keys; Ldk: LdkKeyDerive::keys_id; LdkKeyDerive::channel_keys and the Lnd style are NOT under contract: for
+// Ldk the result is assumed to be a function of (seed, keys id, master key), which is what its signature uses besides
+// the ignored `_basepoint_index`; for Lnd nothing is assumed - the property is about the native and LDK styles)
+pub struct VxKeyDerive { pub style: KeyDerivationStyle, pub network: Network }
+#[verifier::external_body]
+pub fn vx_key_derive(style: KeyDerivationStyle, network: Network) -> (r: VxKeyDerive) ensures r.style == style { unimplemented!() }
+pub uninterp spec fn ldk_channel_keys_spec(seed: Seq<u8>, keys_id: [u8; 32], master: Xpriv) -> (SecretKey, SecretKey, SecretKey, SecretKey, SecretKey, Seq<u8>);
+pub open spec fn style_keys_id(style: KeyDerivationStyle, seed_base: [u8; 32], id: ChannelId, r: [u8; 32]) -> bool {
+    match style {
+        KeyDerivationStyle::Ldk => ldk_keys_id_spec(seed_base, id, r),
+        _ => r == keys_id_spec(seed_base, id),
+    }
+}
+// (funding, revocation, payment, delayed, htlc, commitment seed) in InMemorySigner::new's argument order
+pub open spec fn style_secrets(style: KeyDerivationStyle, seed: Seq<u8>, master: Xpriv, keys_id: [u8; 32])
+    -> (SecretKey, SecretKey, SecretKey, SecretKey, SecretKey, Seq<u8>) {
+    let k = match style {
+        KeyDerivationStyle::Ldk => ldk_channel_keys_spec(seed, keys_id, master),
+        _ => native_keys_spec(keys_id),
+    };
+    (k.0, k.1, k.3, k.4, k.2, k.5)      // channel_keys returns (funding, revocation, htlc, payment, delayed, seed)
+}
+impl VxKeyDerive {
+    #[verifier::external_body]
+    pub fn keys_id(&self, channel_id: ChannelId, channel_seed_base: &[u8; 32]) -> (r: [u8; 32])
+        ensures style_keys_id(self.style, *channel_seed_base, channel_id, r)
+    { unimplemented!() }
+    #[verifier::external_body]
+    pub fn channel_keys(&self, seed: &[u8], keys_id: &[u8; 32], basepoint_index: u32, master_key: &Xpriv, secp_ctx: &VxSecp)
+        -> (r: (SecretKey, SecretKey, SecretKey, SecretKey, SecretKey, [u8; 32]))
+        ensures
+            self.style is Native ==> (r.0, r.1, r.2, r.3, r.4, r.5@) == native_keys_spec(*keys_id),
+            self.style is Ldk ==> (r.0, r.1, r.2, r.3, r.4, r.5@) == ldk_channel_keys_spec(seed@, *keys_id, *master_key),
+    { unimplemented!() }
+}
+
+impl MyKeysManager {
+    #[verifier::external_body]
+    fn get_secure_random_bytes(&self) -> [u8; 32] { unimplemented!() }
+
+//@fn vls-core/src/signer/my_keys_manager.rs :: impl MyKeysManager :: get_channel_keys_with_keys_id props=C18
+    ensures
+        // native and LDK styles: the six secrets depend on (style, node seed, master key, keys id) only - not on the
+        // basepoint counter (how many channels were created before), the entropy source, or the channel value
+        !(self.key_derivation_style is Lnd) ==>
+            ldk_secrets(r) == style_secrets(self.key_derivation_style, self.seed@, self.master_key, keys_id),     //[C18.km.secrets-function-of-seed-and-keys-id]
+//@sub /Ordering::AcqRel/ => Ordering::vx_acq_rel()
+//@end
+
+//@fn vls-core/src/signer/my_keys_manager.rs :: impl MyKeysManager :: get_channel_keys_with_id props=C18
+    ensures
+        // ... and the keys id depends on (channel seed base, channel id) only
+        !(self.key_derivation_style is Lnd) ==> exists|kid: [u8; 32]|
+            style_keys_id(self.key_derivation_style, self.channel_seed_base, channel_id, kid)
+            && ldk_secrets(r) == style_secrets(self.key_derivation_style, self.seed@, self.master_key, kid),      //[C18.km.secrets-function-of-seed-and-channel-id]
 //@end
 }
 
